@@ -21,6 +21,7 @@ RULE = ("lattice: dense n x {real symmetric, real unsymmetric with real / comple
         "sorting {default, descending}.  One descriptor = one pencil, its sub-points are all option combinations, each "
         "on a fresh module.  A descriptor is non-trivial if at least one sub-point was admissible and the order check "
         "could decide at least one pair; distinct by descriptor")
+RULE += " Extended in seeding rounds 6-7:  sparse chain pencils without boundary rows with every number of modes up to the ARPACK limits and the default."
 ASSUMPTIONS = [
     "numpy.linalg.eig/solve on the dense pencil B^-1 A (reference spectrum), scipy linear_sum_assignment (multiset match)",
     "AssembleStiffness/AssembleMass only produce the input pencils (their correctness is C08); the reference works on "
